@@ -54,15 +54,23 @@ def gen_renamed_dicts(r):
     n = r.choice([2, 3, 3, 4])
     ka = r.sample(["a", "ab", "aaa", "k", "id", "name", "x y"], n)
     kb = r.sample(["bc", "bac", "baa", "q", "key", "title", "z"], r.choice([n, n, max(1, n - 1), n + 1]))
-    lens = [1, 1, 2, 3, 11, 17, 22]
-    a = {k: s(r.choice(lens), r.choice(["abc", "ab", "xyzw"])) for k in ka}
+    lens = [1, 1, 2, 3, 5, 7, 11, 17, 22]
+
+    def val():
+        if r.random() < 0.3:
+            return [r.randrange(6) for _ in range(r.choice([2, 3, 3, 5]))]
+        return s(r.choice(lens), r.choice(["abcd", "abc", "ab", "xyzw"]))
+    a = {k: val() for k in ka}
     b = {}
     for k in kb:
         if a and r.random() < 0.4:
             src = r.choice(list(a.values()))
-            b[k] = src if r.random() < 0.3 else src[:max(1, len(src) // 2)] + s(r.choice([0, 1, 5]), "abz")
+            if isinstance(src, list):
+                b[k] = list(src) if r.random() < 0.3 else src[:max(1, len(src) // 2)] + [r.randrange(6)]
+            else:
+                b[k] = src if r.random() < 0.3 else src[:max(1, len(src) // 2)] + s(r.choice([0, 1, 5]), "abz")
         else:
-            b[k] = s(r.choice(lens), r.choice(["abc", "ab", "xyzw"]))
+            b[k] = val()
     if r.random() < 0.3:
         return [a, 1], [b, 1]
     return a, b
